@@ -5,6 +5,7 @@ import (
 	"go/token"
 	"go/types"
 	"regexp/syntax"
+	"sort"
 	"strings"
 
 	"golang.org/x/tools/go/ssa"
@@ -72,6 +73,7 @@ func runC42(c *Ctx) {
 	}
 	c.Explain = "E1/E7 on staticsources.resolveSource(s, matches, query) and forward.resolveDest(dest, pathName, matches): all_occurrences (only strings.ReplaceAll), chain (each substitution works on the template or on the previous result; the returned value is the end of the chain), group.order (induction variable = phi(len(matches)-1, i-1), loop guard i >= 1), group.binding (\"$G\"+strconv.FormatInt(int64(i),10) ↦ matches[i]), operand ($MTX_PATH ↦ pathName, $MTX_QUERY ↦ query), query_last (the $MTX_QUERY result only flows to the return), placeholders (exact placeholder set per resolver), dollar_free (conf.rePathName admits no '$'), provenance (E2 over all stores of Handler.Matches/.query, DestHandler/Manager.PathName/.Matches, path.name/.matches and the createPath call sites: groups are FindPathConf(_, name)#1 for the same name), delivered (value-origin trace of every store to StaticSourceRunParams.ResolvedSource and forward/*.Dest.Dest through locals, captured variables and phis: leaves must be resolver calls; a struct-field leaf is a cache and must satisfy delivered.cache: fills are resolver results or \"\", operand-field stores are followed by a reset). " +
 		"Operands are compared as context-sensitive values (prop_gen_c42.go): conversions, named locals, parameters and results of new helpers are looked through, substitution sites are counted per call site of a forwarding helper, the group index may be counter+constant, the numeral may be FormatInt/FormatUint/Itoa/Sprintf(\"$G%d\"). " +
+		"The group loop may also be a range-over-func loop `for i, g := range slices.Backward(matches)` (prop_gen_c42_rangefunc.go): start/step follow from the iterator contract for the index itself, the index test may be i != 0 (a slice index is >= 0), the body must continue (yield true) unless index < 1, the replacement is the yielded element or matches[i]; the template variable then lives in a memory cell shared with the loop body: its loads stand for any stored value, every load must be consumed at once (no stale copy) and nothing but returned reads may follow the $MTX_QUERY assignment. " +
 		"NOT decided: library semantics; a template that splices '$G<n>' out of a group value and neighbouring literal characters."
 	c.Assume = []string{
 		"strings.ReplaceAll replaces every non-overlapping occurrence; strconv.FormatInt(i,10) is the decimal numeral",
@@ -220,7 +222,29 @@ func c42Resolver(c *Ctx, p *Prog, fn *ssa.Function, tmpl, matches int, named map
 		par, ok := x.v.(*ssa.Parameter)
 		return ok && par.Parent() == fn && paramIndex(par) == k
 	}
-	eachInstrCtxG4(fn, nil, func(i ssa.Instruction, env *envG4) {
+	cellLoadsSeenG4 = map[*ssa.UnOp]*ssa.Alloc{}
+	defer func() { cellLoadsSeenG4 = nil }()
+	// The body of a range-over-func loop (`for i, g := range slices.Backward(m)`)
+	// is a synthetic closure of the resolver: its instructions belong to the
+	// resolver like those of an ordinary loop body (prop_gen_c42_rangefunc.go).
+	var visit func(i ssa.Instruction, env *envG4)
+	eachWithLoops := func(f func(ssa.Instruction, *envG4)) {
+		eachInstrCtxG4(fn, nil, f)
+		done := map[*ssa.Function]bool{}
+		var bodies func(g *ssa.Function, d int)
+		bodies = func(g *ssa.Function, d int) {
+			for _, yc := range yieldLoopsG4(g) {
+				if done[yc.y] || d > 4 {
+					continue
+				}
+				done[yc.y] = true
+				eachInstrCtxG4(yc.y, nil, f)
+				bodies(yc.y, d+1)
+			}
+		}
+		bodies(fn, 0)
+	}
+	visit = func(i ssa.Instruction, env *envG4) {
 		cc := callCommon(i)
 		if cc == nil {
 			return
@@ -242,7 +266,8 @@ func c42Resolver(c *Ctx, p *Prog, fn *ssa.Function, tmpl, matches int, named map
 				substs = append(substs, c42Classify(call, env))
 			}
 		}
-	})
+	}
+	eachWithLoops(visit)
 	c.Floor("C42.substitutions:"+fnName(fn), len(substs), 2)
 	substOf := func(x rvalG4) *c42Subst {
 		for _, s := range substs {
@@ -312,6 +337,23 @@ func c42Resolver(c *Ctx, p *Prog, fn *ssa.Function, tmpl, matches int, named map
 		}
 		c.Check("C42.chain", key+"the returned string is the end of the substitution chain", good, p.Pos(posOf(r, fn)), desc(v.v))
 	}
+	// where the chain runs through a variable that is a memory cell (assigned in
+	// the body of a range-over-func loop), every read of it is the current content
+	{
+		cells := map[*ssa.Alloc]bool{}
+		var order []*ssa.Alloc
+		for _, a := range cellLoadsSeenG4 {
+			if !cells[a] {
+				cells[a] = true
+				order = append(order, a)
+			}
+		}
+		sort.Slice(order, func(i, j int) bool { return order[i].Pos() < order[j].Pos() })
+		for _, a := range order {
+			why := c42CellDiscipline(a)
+			c.Check("C42.chain", key+"the variable "+a.Comment+" assigned in a range-over-func loop body is read and consumed at once, and only the loop bodies share it", why == "", p.Pos(a.Pos()), why)
+		}
+	}
 
 	// named operands
 	for _, s := range substs {
@@ -347,6 +389,20 @@ func c42Resolver(c *Ctx, p *Prog, fn *ssa.Function, tmpl, matches int, named map
 				}
 			}
 		}
+		// The same loop as a range-over-func loop: the index is the first
+		// parameter of the yield closure of `range slices.Backward(matches)`,
+		// which is called with (i, matches[i]) for i = len(matches)-1, ..., 0 in
+		// this order (library contract). Start and step hold for the index
+		// itself only (offset 0).
+		var yloop *ssa.Function
+		if par, ok := ctr.v.(*ssa.Parameter); ok && !isPhi {
+			if yc, ok := yieldLoopOfG4(par.Parent()); ok && len(yc.y.Params) == 2 && par == yc.y.Params[0] {
+				if x, ok := slicesBackwardArgG4(yc); ok && isParam(peelG4(rvalG4{x, nil}), matches) && yc.mc.Parent() == fn {
+					yloop = yc.y
+					okInit, okStep = off == 0, off == 0
+				}
+			}
+		}
 		c.Check("C42.group.order", key+"group index starts at len(matches)-1", okInit, p.Pos(s.call.Pos()), descG4(s.idx))
 		c.Check("C42.group.order", key+"group index decreases by one per iteration (so $G10 is handled before $G1)", okStep, p.Pos(s.call.Pos()), descG4(s.idx))
 		// loop guard: index >= 1 (in any spelling: i >= 1, i > 0, !(i < 1), 1 <= i,
@@ -356,39 +412,18 @@ func c42Resolver(c *Ctx, p *Prog, fn *ssa.Function, tmpl, matches int, named map
 		var gs []string
 		for _, g := range guardsG4(s.call, s.env) {
 			gs = append(gs, litOf(g.Cond.v, g.Outcome).String())
-			bo, ok := g.Cond.v.(*ssa.BinOp)
-			if !ok {
-				continue
-			}
-			x, dx := c42Affine(rvalG4{bo.X, g.Cond.env})
-			y, dy := c42Affine(rvalG4{bo.Y, g.Cond.env})
-			op := bo.Op
-			if _, isK := constIntB(x.v); isK && sameG4(y, ctr) { // constant on the left: mirror
-				x, dx, y, dy = y, dy, x, dx
-				switch op {
-				case token.LSS:
-					op = token.GTR
-				case token.GTR:
-					op = token.LSS
-				case token.LEQ:
-					op = token.GEQ
-				case token.GEQ:
-					op = token.LEQ
-				}
-			}
-			k, isK := constIntB(y.v)
-			if !isK || !sameG4(x, ctr) {
-				continue
-			}
-			// (ctr + dx) op (k + dy)  <=>  index op k + dy - dx + off
-			k = k + dy - dx + off
-			switch {
-			case op == token.GEQ && g.Outcome && k == 1, op == token.GTR && g.Outcome && k == 0,
-				op == token.LSS && !g.Outcome && k == 1, op == token.LEQ && !g.Outcome && k == 0:
+			// in a range-over-func loop the index is a slice index (>= 0): i != 0 is i >= 1
+			if c42LowerLit(g, ctr, off, yloop != nil && off >= 0) == 1 {
 				lower = true
 			}
 		}
-		c.Check("C42.group.order", key+"the loop runs exactly while the index is ≥ 1 (group 0 is the whole match, group 1 is not skipped)", lower, p.Pos(s.call.Pos()), "["+strings.Join(gs, " ∧ ")+"]")
+		why := ""
+		if yloop != nil && lower {
+			// ... and the loop goes on to the next smaller index after every
+			// iteration: the body returns true unless index < 1
+			lower, why = c42YieldReturnsOK(yloop, ctr, off)
+		}
+		c.Check("C42.group.order", key+"the loop runs exactly while the index is ≥ 1 (group 0 is the whole match, group 1 is not skipped)", lower, p.Pos(s.call.Pos()), "["+strings.Join(gs, " ∧ ")+"] "+why)
 		// binding
 		c.Check("C42.group.binding", key+"placeholder numeral is decimal", s.base == 10, p.Pos(s.call.Pos()), fmt.Sprintf("base %d", s.base))
 		okRepl := false
@@ -397,6 +432,9 @@ func c42Resolver(c *Ctx, p *Prog, fn *ssa.Function, tmpl, matches int, named map
 				i2, off2 := c42Affine(rvalG4{ia.Index, s.repl.env})
 				okRepl = isParam(peelG4(rvalG4{ia.X, s.repl.env}), matches) && sameG4(i2, ctr) && off2 == off
 			}
+		}
+		if yloop != nil && off == 0 && s.repl.v == ssa.Value(yloop.Params[1]) {
+			okRepl = true // the element slices.Backward(matches) hands out with index i is matches[i]
 		}
 		c.Check("C42.group.binding", key+"$G<i> is replaced by matches[i] for the same i", okRepl, p.Pos(s.call.Pos()), descG4(s.repl))
 	}
@@ -408,7 +446,16 @@ func c42Resolver(c *Ctx, p *Prog, fn *ssa.Function, tmpl, matches int, named map
 		if s.kind != "$MTX_QUERY" {
 			continue
 		}
-		c.Check("C42.query_last", key+"the client query is substituted last and its result is returned without rescanning", flowsOnlyToReturnG4(rvalG4{s.call, s.env}), p.Pos(s.call.Pos()), "")
+		// when the result is assigned to a variable that a range-over-func loop
+		// body shares (a memory cell), "last" is a statement about what can
+		// still execute after the assignment (prop_gen_c42_rangefunc.go)
+		last, detail := false, ""
+		if handled, ok := c42QueryLastCell(fn, s.call); handled {
+			last, detail = ok, "the result is assigned to a variable shared with a range-over-func loop body; after the assignment only reads that are returned may follow"
+		} else {
+			last = flowsOnlyToReturnG4(rvalG4{s.call, s.env})
+		}
+		c.Check("C42.query_last", key+"the client query is substituted last and its result is returned without rescanning", last, p.Pos(s.call.Pos()), detail)
 	}
 }
 
